@@ -41,6 +41,7 @@ public:
 	ref::World world;
 	ref::EndpointCfg aggr, ext;
 	bool aggr_http = false, ext_http = false;
+	bool cred_in_uri = false;               // TCP endpoints: login and key travel in the URI ("ksi+tcp://login:ke:y@host:port", the key contains a colon)
 	int aggr_ep = -1, ext_ep = -1, pub_ep = -1;
 	std::string aggr_uri, ext_uri, pub_url;
 	std::string pubfile_bytes;              // served at pub_url (C04)
